@@ -548,6 +548,10 @@ static int plugname_active(const char *plugname, const char *cmd)
     return 0;
 }
 
+static void process_waiters(CURLM *mh,
+                            const char *ancestor,
+                            const char *status_str);
+
 static void send_initial_parent_queries(CURLM *mh)
 {
     /* Only send out one query for identical ancestors */
@@ -575,8 +579,16 @@ static void send_initial_parent_queries(CURLM *mh)
              * is only to determine if we should perform power op
              */
             rootpm = stat_cmd_plug(mh, root_plugname, NO_OUTPUT);
-            if (!rootpm)
-                goto next;
+            if (!rootpm) {
+                /* the root cannot be queried (e.g. no stat path), so
+                 * nothing would ever release its descendants: fail
+                 * them now.  process_waiters() moves the waitcmds
+                 * cursor, rescan from the start.
+                 */
+                process_waiters(mh, root_plugname, STATUS_ERROR);
+                pm = zlistx_first(waitcmds);
+                continue;
+            }
             powermsg_init_curl(rootpm);
             if (!(rootpm->handle = zlistx_add_end(activecmds, rootpm)))
                 err_exit(true, "zlistx_add_end");
@@ -585,7 +597,6 @@ static void send_initial_parent_queries(CURLM *mh)
                         "DEBUG: parent query hostname=%s plugname=%s\n",
                         rootpm->hostname, rootpm->plugname);
         }
-    next:
         pm = zlistx_next(waitcmds);
     }
 }
@@ -820,8 +831,16 @@ static void process_waiters(CURLM *mh,
                  * is only to determine if we should perform power op
                  */
                 childpm = stat_cmd_plug(mh, child, NO_OUTPUT);
-                if (!childpm)
-                    goto next;
+                if (!childpm) {
+                    /* child cannot be queried, fail its descendants
+                     * instead of leaving them on waitcmds forever.
+                     * The recursion moves the waitcmds cursor, rescan
+                     * from the start.
+                     */
+                    process_waiters(mh, child, STATUS_ERROR);
+                    pm = zlistx_first(waitcmds);
+                    continue;
+                }
                 powermsg_init_curl(childpm);
                 if (!(childpm->handle = zlistx_add_end(activecmds, childpm)))
                     err_exit(true, "zlistx_add_end");
@@ -831,7 +850,6 @@ static void process_waiters(CURLM *mh,
                             childpm->hostname, childpm->plugname);
             }
         }
-    next:
         pm = zlistx_next(waitcmds);
     }
 }
@@ -1052,7 +1070,7 @@ static void off_cmd(CURLM *mh, char **av)
     power_cmd(mh, av, CMD_OFF);
 }
 
-static void send_status_poll(struct powermsg *pm)
+static int send_status_poll(struct powermsg *pm)
 {
     struct powermsg *nextpm;
     char *path = NULL;
@@ -1061,7 +1079,7 @@ static void send_status_poll(struct powermsg *pm)
     get_path(CMD_STAT, pm->plugname, &path, NULL);
     if (!path) {
         printf("%s: %s path not set\n", pm->plugname, CMD_STAT);
-        return;
+        return -1;
     }
 
     /* testing a range of hardware shows that the amount of time it
@@ -1122,6 +1140,7 @@ static void send_status_poll(struct powermsg *pm)
     if (!(nextpm->handle = zlistx_add_end(delayedcmds, nextpm)))
         err_exit(true, "zlistx_add_end");
     free(path);
+    return 0;
 }
 
 static void on_off_process(struct powermsg *pm)
@@ -1130,7 +1149,10 @@ static void on_off_process(struct powermsg *pm)
         /* just sent on or off, now we need for the operation to
          * complete
          */
-        send_status_poll(pm);
+        if (send_status_poll(pm) < 0)
+            /* completion cannot be confirmed, do not leave
+             * descendants on waitcmds forever */
+            process_waiters(pm->mh, pm->plugname, STATUS_ERROR);
 
         /* in test mode, we simulate that the operation has already
          * finished */
@@ -1202,7 +1224,8 @@ static void on_off_process(struct powermsg *pm)
         }
 
         /* resend status poll */
-        send_status_poll(pm);
+        if (send_status_poll(pm) < 0)
+            process_waiters(pm->mh, pm->plugname, STATUS_ERROR);
     }
 
 }
